@@ -219,8 +219,10 @@ static inline int readline_putchar(struct readline *rl, char c)
             break;
 
         default:
-            sline_putchar(&rl->line, c);
-            retcode = READLINE_ECHOCHAR;
+            // a character that does not fit is not stored: it must not be
+            // echoed either
+            ret = sline_putchar(&rl->line, c);
+            retcode = ret ? READLINE_ECHOCHAR : READLINE_OVERFLOW;
             break;
         }
         break;
